@@ -15,6 +15,7 @@ JacClause(e, k, J) ==
   LET n    == TanDim(e.ty, e.kinds[k], e.vals[k])
       got  == e.jac[k] IN
   IF Len(got) # Len(J) THEN "jac_rows"
+  ELSE IF \E r \in 1..Len(J) : Len(got[r]) < n THEN "jac_width"        \* (a narrower row cannot be compared at all)
   ELSE IF \E r \in 1..Len(J) : \E i \in 1..n : got[r][i] # J[r][i] THEN "jacobian"
   ELSE IF e.kinds[k] = "G" /\ \E r \in 1..Len(J) : (Len(got[r]) # n + 1 \/ got[r][n + 1] # DZero) THEN "zero_slot"
   ELSE IF e.kinds[k] # "G" /\ \E r \in 1..Len(J) : Len(got[r]) # n THEN "jac_width"
@@ -24,6 +25,7 @@ InputClause(e, k) == Only({JacClause(e, k, J) : J \in {Jacobian(e.ty, e.prog, e.
 
 RECURSIVE FirstBad(_, _)
 FirstBad(e, k) == IF k > Len(e.vals) THEN "ok"
+                  ELSE IF Len(e.jac) < k THEN "jac_missing_in" \o ToString(k)
                   ELSE LET c == InputClause(e, k) IN
                        IF c # "ok" THEN c \o "_in" \o ToString(k) ELSE FirstBad(e, k + 1)
 
@@ -34,7 +36,8 @@ RECURSIVE ZeroSlotBad(_, _)
 ZeroSlotBad(e, k) ==
   IF k > Len(e.vals) THEN "ok"
   ELSE LET n == TanDim(e.ty, e.kinds[k], e.vals[k]) IN
-       IF e.kinds[k] = "G" /\ \E r \in 1..Len(e.jac[k]) : (Len(e.jac[k][r]) # n + 1 \/ e.jac[k][r][n + 1] # DZero)
+       IF Len(e.jac) < k THEN "jac_missing_in" \o ToString(k)
+       ELSE IF e.kinds[k] = "G" /\ \E r \in 1..Len(e.jac[k]) : (Len(e.jac[k][r]) # n + 1 \/ e.jac[k][r][n + 1] # DZero)
        THEN "zero_slot_in" \o ToString(k)
        ELSE ZeroSlotBad(e, k + 1)
 
